@@ -94,14 +94,14 @@ class AnalysisInterp(Interp):
         if isinstance(v, SeqV):
             if v.filt is None:
                 return Num(v.count)
-            return Num(A("sym", f"len#{id(v) % 10007}"))
+            return Num(A("lenf", v.var, v.count, v.filt))
         return super().length(st, v, node)
 
     def truth(self, v, st, node):
         if isinstance(v, Obj) and v.kind == "candles":
             return ("cmp", "<", -N)  # non-empty list: n > 0
         if isinstance(v, SeqV):
-            return ("nonempty", repr(v))
+            return ("nonempty", v.var, v.count, v.filt)
         if isinstance(v, Obj) and v.kind == "ite":
             c, a, b = v.data
             return ("or", ("and", c, self.truth(a, st, node)), ("and", c_not(c), self.truth(b, st, node)))
